@@ -114,7 +114,13 @@ fn gen_string(r: &mut Rng) -> String {
 
 fn gen_float(r: &mut Rng, strict: bool) -> f64 {
     let v = gen_float0(r, strict);
-    if strict && v == 0.0 { 0.0 } else { v }
+    if strict && !v.is_finite() {
+        1.5
+    } else if strict && v == 0.0 {
+        0.0
+    } else {
+        v
+    }
 }
 
 fn gen_float0(r: &mut Rng, strict: bool) -> f64 {
@@ -124,6 +130,8 @@ fn gen_float0(r: &mut Rng, strict: bool) -> f64 {
         2 | 3 => (r.below(2000) as f64 - 1000.0) / *r.pick(&[1.0, 2.0, 4.0, 10.0, 100.0, 1000.0]),
         4 => (r.next() as f32 / 7.0) as f64,
         5 => f32::from_bits(r.next() as u32) as f64,
+        // widened f32 values of moderate size: their exact decimal expansion often ends half way at 16/17 digits
+        6 | 7 => f32::from_bits(0x3f80_0000 + r.below(1 << 27) as u32) as f64,
         _ => {
             let v = f64::from_bits(r.next());
             if strict && !v.is_finite() { 1.5 } else { v }
